@@ -320,7 +320,7 @@ class Exec(CallsMixin, Interp):
                 if not z3.is_string_value(s) or s.as_string() not in k.fields:
                     raise Unsupported('record store with unknown key')
                 off, fk = k.slot(s.as_string())
-                v = K.coerce(v, fk)
+                v = self.empty_of(fk, v) if isinstance(v, PyObj) else K.coerce(v, fk)
                 terms = list(base.terms)
                 terms[off] = z3.BoolVal(True)
                 terms[off + 1:off + 1 + fk.nleaves()] = v.terms
